@@ -219,7 +219,7 @@ def run_program_check(prop, tier, seed):
         S["mine"] += S2["mine"]
         S["programs"] += S2["programs"]
     extra = None
-    if prop in ("C08", "C17"):
+    if prop in ("C08", "C17", "C10"):
         # decision logic modelled in PW.Decide: function-level correspondence on crafted inputs
         try:
             import fn_decide
